@@ -30,7 +30,7 @@ D == INSTANCE Decoder WITH TecmpDecode <- NoTecmp
 
 (* packet x of a batch: everything but type and length is a function of x *)
 Pk(x, mt, n) ==
-    [mt |-> mt, pt |-> IF mt = MtData THEN 255 ELSE 200 + x, ver |-> 1,
+    [mt |-> mt, pt |-> IF mt = MtData THEN 255 ELSE 200 + x, ver |-> 1, dev |-> 4096 + x, st |-> 90 + x, seq |-> 700 + x,   \* ids of the packet's own: the encoder's win
      ts |-> << 1, 2, 3, 4, 5, 6, 7, x >>, ifid |-> << 10, 11, 12, x >>, vid |-> 4660 + x,
      fl |-> IF x = 2 THEN 33 ELSE IF x = 3 THEN 13 ELSE 0,       \* packet 3 carries bits of the segmentation field
      pl |-> [j \in 1..n |-> (16 * x + j) % 256]]
